@@ -450,7 +450,9 @@ pub fn gen_frame_of(s: &mut Src, kind: usize, max_len: u64) -> Frame {
         2 => {
             let largest = s.varint();
             let delay = s.varint_few();
-            let first = s.varint();
+            // a first range reaching below packet number 0 is not a frame value (RFC 9000 §19.3.1; the
+            // decoder rejects it with FRAME_ENCODING_ERROR): clamp, keeping the draw sequence unchanged
+            let first = s.varint().min(largest);
             let n = match s.pick(6) {
                 0 => 0,
                 1 => 1,
